@@ -838,7 +838,6 @@ REMOVE_TRIAGE = {
     ("DFState.transition", "self.transitions.remove(_1)"): "`contain` is drawn from self.transitions (the overlap scan) and removed at most once: it is emptied only here",
     ("CaseNode._find_case_actions", "del self.sub_matches[_1]"): "keys collected while iterating self.sub_matches.items(); each key once",
     ("CaseNode._merge", "_1.remove(_2)"): "a and b are a pair of distinct elements drawn from local_alphabet by itertools.combinations",
-    ("LoopNode.convert", "_1.actions.remove(self.break_action)"): "transitions_that_do(self.break_action) yields only transitions whose actions contain it",
     ("ParseCtx._parse_macro_call", "del self.bound_argument_stack[-1]"): "pops the frame pushed before the body was expanded (C13.d pairing)",
     ("CodegenCtx._generate_condition_for_transition", "_1.remove(_2)"): "`used` holds elements taken from on_values_remaining by index, each once (runs do not overlap: C06 range rule)",
     ("debug_dump_dfa.build_label_onvalues", "_1.remove(_2)"): "debug graph output: same construction as the code generator's range collapse",
@@ -860,7 +859,13 @@ def _partial_removals(ctx, rep, tier):
             elif isinstance(node, ast.Delete):
                 for t in node.targets:
                     if isinstance(t, ast.Subscript):
-                        sites.append((node, t.value, t.slice))
+                        sl = t.slice
+                        # `del coll[coll.index(x):]` raises like coll.remove(x) when x is absent: the element in question is x
+                        if isinstance(sl, ast.Slice) and sl.upper is None and sl.step is None and isinstance(sl.lower, ast.Call) and isinstance(sl.lower.func, ast.Attribute) \
+                                and sl.lower.func.attr == "index" and ast.unparse(sl.lower.func.value) == ast.unparse(t.value) and len(sl.lower.args) == 1:
+                            sites.append((node, t.value, sl.lower.args[0]))
+                        else:
+                            sites.append((node, t.value, t.slice))
         for node, coll, elem in sites:
             n += 1
             cs, es = ast.unparse(coll), ast.unparse(elem)
@@ -876,6 +881,15 @@ def _partial_removals(ctx, rep, tier):
                     it = ast.unparse(x.iter)
                     if it in (f"{cs}.copy()", f"list({cs})", f"set({cs})", f"tuple({cs})"):
                         guarded = f"element of a loop over a copy of {cs}"
+                # element guaranteed by the producer of the loop: `for t in X.transitions_that_do(E): t.actions.remove(E)` where transitions_that_do only
+                # collects transitions under `action in t.actions` (re-matched here, not believed)
+                if guarded is None and isinstance(x, ast.For) and isinstance(x.target, ast.Name) and cs == f"{x.target.id}.actions" and isinstance(x.iter, ast.Call) \
+                        and isinstance(x.iter.func, ast.Attribute) and x.iter.func.attr == "transitions_that_do" and len(x.iter.args) == 1 and ast.unparse(x.iter.args[0]) == es:
+                    ttd = model.functions.get("DFA.transitions_that_do")
+                    adds = [n for n in ast.walk(ttd) if isinstance(n, ast.Call) and isinstance(n.func, ast.Attribute) and n.func.attr == "add"] if ttd else []
+                    if adds and all(any(pol and re.fullmatch(r"action in (\w+)\.actions", test.strip("() ")) and ast.unparse(a.args[0]) == re.fullmatch(r"action in (\w+)\.actions", test.strip("() ")).group(1)
+                                        for test, pol in enclosing_conditions(model, a, ttd)) for a in adds):
+                        guarded = f"transition of a loop over transitions_that_do({es}) (which collects only transitions whose actions contain it)"
             if guarded is None:
                 for test, pol in enclosing_conditions(model, node, f):
                     if pol and any(part.strip("() ") == f"{es} in {cs}" for part in re.split(r"\band\b", test)):
@@ -1474,3 +1488,39 @@ _run12 = run
 def run(ctx, rep, tier):
     _run12(ctx, rep, tier)
     _embedded_actions_agree(ctx, rep, tier)
+
+
+# ---------------------------------------------------------------------------------------------------------------- C18.z2
+def _emitter_stops_where_reachability_stops(ctx, rep, tier):
+    """C18.z2 (F-82): DFA.dfs stops reading a transition's actions at the first one that always leaves (the statements after a `finish` / `break` put their
+    leading actions behind it: dead), so states only those dead actions refer to are removed as inaccessible. The emitter has to stop at the same place -
+    otherwise it renders the dead actions and asks list.index for a removed state (uncaught ValueError at -O1+)."""
+    from .tbrows import action_loop_stop_modes
+    model = ctx.model
+    rep.rule("C18.z2", "the emitter renders a transition's actions up to and including the first one at which DFA.dfs stops (an action that always leaves)")
+    dfs = model.functions.get("DFA.dfs.aux")
+    stops = set()
+    if dfs is not None:
+        for loop in ast.walk(dfs):
+            if isinstance(loop, ast.For) and ast.unparse(loop.iter).endswith(".actions"):
+                chain = loop.body[0] if loop.body and isinstance(loop.body[0], ast.If) else None
+                while chain is not None:
+                    if any(isinstance(x, ast.Break) for x in chain.body):
+                        stops |= set(re.findall(r"ActionOverrideMode\.(\w+)", ast.unparse(chain.test)))
+                    chain = chain.orelse[0] if len(chain.orelse) == 1 and isinstance(chain.orelse[0], ast.If) else None
+    if not stops:
+        rep.bad("C18.z2", "DFA.dfs", "modes at which the reachability walk stops reading actions", "DFA.dfs no longer stops at an always-leaving action: re-derive this rule")
+        return
+    em = action_loop_stop_modes(model)
+    rep.check(em is not None and stops <= em, "C18.z2", "CodegenCtx._generate_transition_body", f"stops after modes {sorted(stops)} like DFA.dfs",
+              f"DFA.dfs stops reading a transition's actions at {sorted(stops)}, the emitter renders on (stops at {sorted(em or [])}): the leading actions of statements after a "
+              "finish / break are emitted although the states they refer to were removed as inaccessible - `\"b\"; finish; loop { if x == 1 { break; } \"bc\"; }` dies with "
+              "ValueError from list.index at -O1 and above")
+
+
+_run13 = run
+
+
+def run(ctx, rep, tier):
+    _run13(ctx, rep, tier)
+    _emitter_stops_where_reachability_stops(ctx, rep, tier)
